@@ -137,7 +137,7 @@ class Ctx:
         """Run TLC on <wd>/<module>.tla with <wd>/<cfg> (default <module>.cfg)."""
         cfg = cfg or (module + ".cfg")
         meta = Path(wd) / ("meta_" + module + "_" + str(int(time.time() * 1000) % 10**9))
-        heap = heap or "12g"
+        heap = heap or "6g"
         cmd = ["timeout", str(timeout), "java", "-XX:+UseParallelGC", f"-Xss{xss}", f"-Xmx{heap}"]
         if dfs:
             cmd.append("-Dtlc2.tool.queue.IStateQueue=StateDeque")
